@@ -33,53 +33,69 @@ def _escalate(chk, scen_name, scen, gen, n, breaks_before, what):
                          f'escalated search over {n} more cases, monitor hits: {len(chk.violations)}')
 
 
+def _run_batched(chk, scen_name, scen, cases, model, engine, batch, per_case_timeout=120.0, traced=None, visit=None):
+    """run -> account -> monitors -> driver validation, batch by batch, so that the bulky per-case material
+    (hex streams, traces) never accumulates; `visit(case, res)` collects the small statistics"""
+    nval = ntot = 0
+    for i in range(0, len(cases), batch):
+        results = chk.run_cases(scen_name, cases[i:i + batch], sched=False, per_case_timeout=per_case_timeout)
+        chk.account(scen, results, engine)
+        chk.collect_monitors(results, {'C18'}, keyfn)
+        sel = [(c, r) for c, r in results if traced is None or traced(c)]
+        if model and sel:
+            a, b = chk.validate(model, scen, sel)
+            nval += a
+            ntot += b
+        for case, res in results:
+            if visit:
+                visit(case, res)
+        del results, sel
+    return nval, ntot
+
+
 def _frame_part(chk, n):
     scen = importlib.import_module('scen_frame')
     cases = [scen.gen_case(chk.rng, chk.tier) for _ in range(n)]
-    results = chk.run_cases('scen_frame', cases, sched=False)
-    chk.account(scen, results, 'E3-differential')
-    chk.collect_monitors(results, {'C18'}, keyfn)
-    b0 = len(chk.corr_breaks)
-    nval, ntot = chk.validate('frame', scen, results)
-    chk.add_obligation('correspondence', 'frame: real write_record/read_record vs Frame.encodeStream/decodeStream (byte-exact)',
-                       nval == ntot, cases=ntot, agreed=nval)
-    _escalate(chk, 'scen_frame', scen, lambda: scen.gen_case(chk.rng, chk.tier), 2 * n, b0, 'frame')
     dist = chk.cov['distribution'].setdefault('frame', {})
-    for case, res in results:
+    sampled = []
+
+    def visit(case, res):
         dist[case['mode']] = dist.get(case['mode'], 0) + 1
         dist['end:' + res['end']] = dist.get('end:' + res['end'], 0) + 1
         dist['chunkings'] = dist.get('chunkings', 0) + res['nchunkings']
         dist['records_read'] = dist.get('records_read', 0) + res['nread']
         dist['max_wire_len'] = max(dist.get('max_wire_len', 0), res['wire_len'])
-    for case, res in results:
-        if scen.nontrivial(case, res) and res['wire_len'] < 400:
+        if not sampled and scen.nontrivial(case, res) and res['wire_len'] < 400:
+            sampled.append(1)
             chk.sample(dict(case=case, wire=res['wire_hex'], end=res['end'], read=res['got_hex']))
-            break
-    return results
+
+    b0 = len(chk.corr_breaks)
+    nval, ntot = _run_batched(chk, 'scen_frame', scen, cases, 'frame', 'E3-differential', 400, visit=visit)
+    chk.add_obligation('correspondence', 'frame: real write_record/read_record vs Frame.encodeStream/decodeStream (byte-exact)',
+                       nval == ntot, cases=ntot, agreed=nval)
+    _escalate(chk, 'scen_frame', scen, lambda: scen.gen_case(chk.rng, chk.tier), min(2 * n, 3000), b0, 'frame')
 
 
 def _pipe_part(chk, n):
     scen = importlib.import_module('scen_pipe')
     cases = [scen.gen_case(chk.rng, chk.tier) for _ in range(n)]
-    results = chk.run_cases('scen_pipe', cases, sched=False, per_case_timeout=60)
-    chk.account(scen, results, 'E3-differential')
-    chk.collect_monitors(results, {'C18'}, keyfn)
-    b0 = len(chk.corr_breaks)
-    nval, ntot = chk.validate('pipe', scen, results)
-    chk.add_obligation('correspondence', 'pipe: send/recv traces of the real pipe.Server/Client replayed through Pipe.step, '
-                       'and Connection framing vs Pipe.frame/readFrame (drv pipe)', nval == ntot, cases=ntot, agreed=nval)
-    _escalate(chk, 'scen_pipe', scen, lambda: scen.gen_case(chk.rng, chk.tier), 2 * n, b0, 'pipe')
     dist = chk.cov['distribution'].setdefault('pipe_inproc', {})
-    for case, res in results:
+    sampled = []
+
+    def visit(case, res):
         dist['cases'] = dist.get('cases', 0) + 1
         dist['messages'] = dist.get('messages', 0) + res['nmsg']
         dist['frames_compared'] = dist.get('frames_compared', 0) + len(res['frames'])
         dist['max_message_bytes'] = max([dist.get('max_message_bytes', 0)] + [e[2] for e in res['events']])
-    for case, res in results:
-        if 2 <= res['nmsg'] <= 4 and max([e[2] for e in res['events']] + [0]) < 200:
+        if not sampled and 2 <= res['nmsg'] <= 4 and max([e[2] for e in res['events']] + [0]) < 200:
+            sampled.append(1)
             chk.sample(dict(case=case, trace=res['trace']))
-            break
-    return results
+
+    b0 = len(chk.corr_breaks)
+    nval, ntot = _run_batched(chk, 'scen_pipe', scen, cases, 'pipe', 'E3-differential', 200, per_case_timeout=60, visit=visit)
+    chk.add_obligation('correspondence', 'pipe: send/recv traces of the real pipe.Server/Client replayed through Pipe.step, '
+                       'and Connection framing vs Pipe.frame/readFrame (drv pipe)', nval == ntot, cases=ntot, agreed=nval)
+    _escalate(chk, 'scen_pipe', scen, lambda: scen.gen_case(chk.rng, chk.tier), min(2 * n, 600), b0, 'pipe')
 
 
 def _sock_part(chk, n_sock, n_pipe):
@@ -91,18 +107,12 @@ def _sock_part(chk, n_sock, n_pipe):
              scen.gen_sock(rng, chk.tier, mode='proc', boundary='bigfast')]
     cases += [scen.gen_sock(rng, chk.tier, boundary=('bigfast' if rng.random() < 0.1 else None)) for _ in range(n_sock)]
     cases += [scen.gen_pipe(rng, chk.tier) for _ in range(n_pipe)]
-    results = chk.run_cases('scen_sock', cases, sched=False, per_case_timeout=scen.CHILD_TIMEOUT + 30)
-    chk.account(scen, results, 'E4-processes')
-    chk.collect_monitors(results, {'C18'}, keyfn)
-    traced = [(c, r) for c, r in results if c['kind'] == 'sock' and c['mode'] == 'thread']
-    b0 = len(chk.corr_breaks)
-    nval, ntot = chk.validate('mux', scen, traced)
-    chk.add_obligation('correspondence', 'mux: event traces of the real SocketServer/SocketClient replayed through Mux.step (drv mux)',
-                       nval == ntot, cases=ntot, agreed=nval)
-    _escalate(chk, 'scen_sock', scen, lambda: scen.gen_sock(rng, chk.tier), 2 * n_sock, b0, 'mux')
     dist = chk.cov['distribution'].setdefault('sock', {})
-    walls = sorted(r.get('wall') or 0 for _c, r in results)
-    for case, res in results:
+    walls = []
+    sampled = []
+
+    def visit(case, res):
+        walls.append(res.get('wall') or 0)
         key = case['kind'] + (':' + case['mode'] if case['kind'] == 'sock' else '')
         dist[key] = dist.get(key, 0) + 1
         if case['kind'] == 'sock':
@@ -113,15 +123,22 @@ def _sock_part(chk, n_sock, n_pipe):
             dist['max_body_bytes'] = max(dist.get('max_body_bytes', 0), max(r['pl'][1] for r in case['reqs']))
             dist[f'nconn={case["nconn"]}'] = dist.get(f'nconn={case["nconn"]}', 0) + 1
             dist[f'requesters={case["nthreads"]}'] = dist.get(f'requesters={case["nthreads"]}', 0) + 1
+            if not sampled and case['mode'] == 'thread' and 2 <= len(case['reqs']) <= 4:
+                sampled.append(1)
+                chk.sample(dict(case=case, events=[list(e) for e in res['events']][:80], results=res['results']))
         else:
             dist['pipe_objects'] = dist.get('pipe_objects', 0) + res.get('nobjects', 0)
+
+    b0 = len(chk.corr_breaks)
+    nval, ntot = _run_batched(chk, 'scen_sock', scen, cases, 'mux', 'E4-processes', 160,
+                              per_case_timeout=scen.CHILD_TIMEOUT + 30,
+                              traced=lambda c: c['kind'] == 'sock' and c['mode'] == 'thread', visit=visit)
+    chk.add_obligation('correspondence', 'mux: event traces of the real SocketServer/SocketClient replayed through Mux.step (drv mux)',
+                       nval == ntot, cases=ntot, agreed=nval)
+    _escalate(chk, 'scen_sock', scen, lambda: scen.gen_sock(rng, chk.tier), min(2 * n_sock, 200), b0, 'mux')
+    walls.sort()
     dist['median_case_wall_s'] = walls[len(walls) // 2] if walls else 0
     dist['max_case_wall_s'] = walls[-1] if walls else 0
-    for case, res in results:
-        if case['kind'] == 'sock' and case['mode'] == 'thread' and 2 <= len(case['reqs']) <= 4:
-            chk.sample(dict(case=case, events=[list(e) for e in res['events']][:80], results=res['results']))
-            break
-    return results
 
 
 def run(chk):
